@@ -297,6 +297,21 @@ fn process_deposits_for_single_pool<C: ContentAddrStore>(
         .fold(0u128, |a, b| a.saturating_add(b));
 
     let total_mtsqrt = total_lefts.sqrt().saturating_mul(total_rights.sqrt());
+    // the shares below are my_mtsqrt / total_mtsqrt; because of the truncated square roots the
+    // individual terms can add up to more than total_mtsqrt (two equal deposits of 4 and 4:
+    // 2*2 + 2*2 = 8 against sqrt(8)*sqrt(8) = 4), which would hand out more liquidity tokens
+    // than the pool records. Never divide by less than the sum of the terms.
+    let sum_mtsqrt = deposits
+        .iter()
+        .map(|tx| {
+            tx.outputs[0]
+                .value
+                .0
+                .sqrt()
+                .saturating_mul(tx.outputs[1].value.0.sqrt())
+        })
+        .fold(0u128, |a, b| a.saturating_add(b));
+    let total_mtsqrt = total_mtsqrt.max(sum_mtsqrt);
     // main logic here
     let total_liqs = if let Some(mut pool_state) = state.pools.get(pool) {
         let liq = pool_state.deposit(total_lefts, total_rights);
